@@ -507,7 +507,11 @@ double Dawson_Integral(double x)
 
 double Erfi(double x)
 {
-	return 2.0 / std::sqrt(M_PI) * std::exp(x * x) * Dawson_Integral(x);
+	double dawson = Dawson_Integral(x);
+	// exp(x^2) overflows before the product with the Dawson integral ( ~ 1/(2x) ) does.
+	if(x * x > 700.0)
+		return Sign(std::exp(x * x + std::log(2.0 / std::sqrt(M_PI) * std::fabs(dawson))), x);
+	return 2.0 / std::sqrt(M_PI) * std::exp(x * x) * dawson;
 }
 
 double Inv_Erf(double p)
